@@ -7,8 +7,13 @@ func init() {
 	register("C12", "", ruleT10Layout)
 	register("C07", "", ruleT11, ruleE7)
 	register("C08", "", ruleT8, ruleP4)
-	register("C09", "", ruleE9)
+	register("C09", "", ruleE9, ruleSymSort, ruleF4, ruleBoundedCopy)
 	register("C10", "", ruleE1, ruleE2)
+	register("C11", "", ruleE10, ruleF3)
 	register("C13", "", ruleE6)
+	register("C14", "", ruleE5, ruleE1, ruleEmitLoop)
+	register("C15", "", ruleF5, ruleE2)
+	register("C16", "", ruleF6, ruleP5)
+	register("C17", "", ruleE5, ruleModeDefaults)
 	register("C19", "", ruleT9, ruleP6)
 }
